@@ -320,3 +320,115 @@ func zzH14_unary3() {
 	zzCheckParse(b, "unary3")
 	zzReach("end")
 }
+
+// zzH14_cond: the conditional expression binds weaker than every binary
+// operator and nests to the right:
+//
+//	x OP1 y if z else w OP2 v      =  (x OP1 y) if z else (w OP2 v)
+//	x if y else z if w else v      =  x if y else (z if w else v)
+//	lambda: x if y else z OP1 w    =  lambda: (x if y else (z OP1 w))
+func zzH14_cond() {
+	ops := len(zzBinOps)
+	o1 := zzBinOps[zzChoice("op1", ops)]
+	b := &zzSrc{line: 1, col: 1}
+	id := func(i int) string {
+		t := b.toks[i]
+		return t.text + zzPos(t.line, t.col)
+	}
+	var want string
+	switch zzChoice("shape", 3) {
+	case 0:
+		o2 := zzBinOps[zzChoice("op2", zzParam("op2s", 4, ops))]
+		b.operand(0) // 0
+		b.raw(" ")
+		b.add(1, o1.text, o1.tok, o1.level) // 1
+		b.raw(" ")
+		b.operand(1) // 2
+		b.raw(" ")
+		b.add(3, "if", IF, -1) // 3
+		b.raw(" ")
+		b.operand(2) // 4
+		b.raw(" ")
+		b.add(3, "else", ELSE, -1) // 5
+		b.raw(" ")
+		b.operand(3) // 6
+		b.raw(" ")
+		b.add(1, o2.text, o2.tok, o2.level) // 7
+		b.raw(" ")
+		b.operand(4) // 8
+		want = "((" + id(0) + " " + id(1) + " " + id(2) + ") " + id(3) + " " + id(4) + " " + id(5) + " (" + id(6) + " " + id(7) + " " + id(8) + "))"
+	case 1:
+		b.operand(0) // 0
+		b.raw(" ")
+		b.add(3, "if", IF, -1) // 1
+		b.raw(" ")
+		b.operand(1) // 2
+		b.raw(" ")
+		b.add(3, "else", ELSE, -1) // 3
+		b.raw("  ")
+		b.operand(2) // 4
+		b.raw(" ")
+		b.add(3, "if", IF, -1) // 5
+		b.raw(" ")
+		b.operand(3) // 6
+		b.raw(" ")
+		b.add(3, "else", ELSE, -1) // 7
+		b.raw(" ")
+		b.operand(4) // 8
+		want = "(" + id(0) + " " + id(1) + " " + id(2) + " " + id(3) + " (" + id(4) + " " + id(5) + " " + id(6) + " " + id(7) + " " + id(8) + "))"
+	case 2:
+		b.add(3, "lambda", LAMBDA, -1) // 0
+		b.raw(": ")
+		b.operand(0) // 1
+		b.raw(" ")
+		b.add(3, "if", IF, -1) // 2
+		b.raw(" ")
+		b.operand(1) // 3
+		b.raw(" ")
+		b.add(3, "else", ELSE, -1) // 4
+		b.raw(" ")
+		b.operand(2) // 5
+		b.raw(" ")
+		b.add(1, o1.text, o1.tok, o1.level) // 6
+		b.raw(" ")
+		b.operand(3) // 7
+		want = "(" + id(0) + " (" + id(1) + " " + id(2) + " " + id(3) + " " + id(4) + " (" + id(5) + " " + id(6) + " " + id(7) + ")))"
+	}
+	e, err := ParseExpr("c.star", b.text, 0)
+	zzAssert(err == nil, "C14.cond.accept")
+	if err == nil {
+		got := zzShowCond(e)
+		zzObserve("tree", got)
+		zzAssert(got == want, "C14.cond.tree")
+	}
+	zzReach("end")
+}
+
+// zzShowCond renders conditional and lambda nodes (positions of `if`, `else`,
+// `lambda`); binary operators are rendered with the position of their
+// spelling (for `not in` the position recorded by the parser is that of `in`,
+// finding C14.pos.notin_oppos, compensated here).
+func zzShowCond(e Expr) string {
+	switch e := e.(type) {
+	case *CondExpr:
+		start, _ := e.Span()
+		ts, _ := e.True.Span()
+		if start != ts {
+			return "?span"
+		}
+		return "(" + zzShowCond(e.True) + " if" + zzP(e.If) + " " + zzShowCond(e.Cond) + " else" + zzP(e.ElsePos) + " " + zzShowCond(e.False) + ")"
+	case *LambdaExpr:
+		start, _ := e.Span()
+		if start != e.Lambda || len(e.Params) != 0 {
+			return "?lambda"
+		}
+		return "(lambda" + zzP(e.Lambda) + " " + zzShowCond(e.Body) + ")"
+	case *BinaryExpr:
+		p := e.OpPos
+		if e.Op == NOT_IN {
+			p.Col -= 4
+		}
+		return "(" + zzShowCond(e.X) + " " + zzOpText(e.Op) + zzP(p) + " " + zzShowCond(e.Y) + ")"
+	}
+	return zzShow(e)
+}
